@@ -187,7 +187,13 @@ def apply_real(args, op):
             v = args[slice(*op[1])]
             if not isinstance(v, TexArgs):
                 return ('val', 'slice is %s, not TexArgs' % type(v).__name__)
-            return ('val', [str(g) for g in v])
+            snap = [str(g) for g in v]
+            # a slice is a new list: editing it must not show in the original
+            # (the observation after this step compares the owner's list)
+            v.append(mk('{sliced}', True))
+            if v is args:
+                return ('val', 'the slice is the list itself')
+            return ('val', snap)
     except (ValueError, IndexError, TypeError) as e:
         return ('exc', type(e).__name__)
 
